@@ -52,8 +52,9 @@ def _const(node):
 
 
 class Intervals:
-    def __init__(self, func):
+    def __init__(self, func, on_call=None):
         self.func = func
+        self.on_call = on_call    # callback(call node, env, self) for every call met, with the bounds valid at that point
         self.sites = []       # {"node", "kind", "arg", "interval", "ok"}
 
     # ---- expressions
@@ -104,6 +105,13 @@ class Intervals:
                 if r[0] > 0 or r[1] < 0:
                     inv = (1.0 / r[1] if abs(r[1]) != INF else 0.0, 1.0 / r[0] if abs(r[0]) != INF else 0.0)
                     return _mul(l, (min(inv), max(inv)))
+                # divisor of one sign but possibly zero: the quotient keeps the sign pattern (or is inf/NaN, which no bound excludes anyway)
+                if r[0] >= 0 or r[1] <= 0:
+                    sgn = 1 if r[0] >= 0 else -1
+                    if l[0] >= 0:
+                        return (0.0, INF) if sgn > 0 else (-INF, 0.0)
+                    if l[1] <= 0:
+                        return (-INF, 0.0) if sgn > 0 else (0.0, INF)
                 return TOP
             return TOP
         if isinstance(n, ast.IfExp):
@@ -170,6 +178,8 @@ class Intervals:
     # ---- domain sites
     def scan(self, n, env):
         for c in ast.walk(n):
+            if isinstance(c, ast.Call) and self.on_call is not None:
+                self.on_call(c, env, self)
             if isinstance(c, ast.Call) and c.args:
                 name = ast.unparse(c.func)
                 base = name.split(".")[-1]
@@ -296,6 +306,14 @@ class Intervals:
                 if k.startswith(t.id + "[") or k.startswith(t.id + "."):
                     del env[k]
             env[t.id] = v
+            # element-wise bounds of a literal vector  x = np.array([e0, e1, ...])
+            lit = value_node
+            if isinstance(lit, ast.Call) and ast.unparse(lit.func).split(".")[-1] in ("array", "asarray") and lit.args:
+                lit = lit.args[0]
+            if isinstance(lit, (ast.List, ast.Tuple)):
+                for i, e in enumerate(lit.elts):
+                    if not isinstance(e, ast.Starred):
+                        env["%s[%d]" % (t.id, i)] = self.ev(e, env)
         elif isinstance(t, (ast.Tuple, ast.List)):
             elts = value_node.elts if isinstance(value_node, (ast.Tuple, ast.List)) and len(value_node.elts) == len(t.elts) else None
             for i, e in enumerate(t.elts):
